@@ -13,3 +13,11 @@ Fixpoint py_split1 (s : str) (c : char) : option (str * str) :=
                    | None => None
                    end
   end.
+
+(* helpers of the generated Gen/GenAttrKey.v (TagAttributes._etree_key) *)
+Definition py_in_keys {V} (k : str) (d : list (str * V)) : bool := existsb (fun e => str_eqb (fst e) k) d.
+Definition optstr_eqb (a b : option str) : bool :=
+  match a, b with Some x, Some y => str_eqb x y | None, None => true | _, _ => false end.
+Definition py_bool_optstr (a : option str) : bool := match a with Some s => py_bool_str s | None => false end.
+(* str(x) inside an f-string *)
+Definition py_str_optstr (a : option str) : str := match a with Some s => s | None => [78; 111; 110; 101]%N end.
